@@ -82,7 +82,7 @@ impl<'tcx> Cpp2Formatter<'tcx> {
 
     /// Format an enum variant.
     pub fn fmt_enum_variant(&self, variant: &'tcx hir::EnumVariant) -> Cow<'tcx, str> {
-        variant.attrs.rename.apply(variant.name.as_str().into())
+        self.fmt_identifier(variant.attrs.rename.apply(variant.name.as_str().into()))
     }
 
     /// Format the name of a c enum variant given the c name of the type it is on.
